@@ -370,14 +370,25 @@ func main() {
 			g := genMessage(r, st)
 			ids := genIds(r)
 			lim := uint32(bigLim)
-			socket.SetMessageSizeLimit(bigLim)
+			if r.Intn(3) == 0 {
+				// back to the library's default limit (0 = default), possibly straight after a tight
+				// one: everything that follows the limit - the filters' inflate bound included -
+				// must follow it back
+				socket.SetMessageSizeLimit(0)
+				lim = socket.MessageSizeLimit()
+				st.Count("limit:reset-to-default")
+			} else {
+				socket.SetMessageSizeLimit(bigLim)
+			}
+			loose := true
 			probe, pok, _ := packOne(g, ids)
 			if pok && r.Intn(6) == 0 { // limit at / just under the frame size
 				lim = uint32(len(probe)) - uint32(r.Intn(2))
+				loose = false
+				socket.SetMessageSizeLimit(lim)
 				st.Count("limit:tight")
 			}
 			gz.ResetTab()
-			socket.SetMessageSizeLimit(lim)
 			out, ok, writes := packOne(g, ids)
 			human := fmt.Sprintf("pack lim=%d ids=%x msg=%s", lim, ids, g.val())
 			if ok && writes != 1 {
@@ -402,7 +413,7 @@ func main() {
 						unpObs = cur
 						// property oracle on the implementation alone (a gzip stage may legitimately
 						// refuse to inflate beyond a tight limit: those cases are left to the model)
-						if lim == bigLim || !bytes.Contains(ids, []byte{'g'}) {
+						if loose || !bytes.Contains(ids, []byte{'g'}) {
 							c05Oracle(st, i, g, ids, fr, end, sizes, len(out), human)
 						}
 					} else if cur != first {
